@@ -37,7 +37,7 @@ Fixpoint run_obs (fl : rflags) (cl : list string) (ops : list hop) (h : hub)
   match ops with
   | [] => (h, [], [])
   | o :: ops' =>
-    let '(h1, r) := step fl h o in
+    let '(h1, r) := stepd fl h o in
     let '(h2, rs, ps) := run_obs fl cl ops' h1 in
     (h2, r :: rs, if is_restart o then (obs cl h, obs cl h1) :: ps else ps)
   end.
